@@ -21,8 +21,9 @@ RULE = ("cases: bounded-exhaustive sweep (all formulas with <=2 levels, arity<=3
         "interleaved with random ASTs to depth 4, each built via constructors / from_json / from_cicJE (five rule types x ALL/ANY x "
         "0-3 sub-conditions x optional ids); all 2^n assignments judged. non-trivial: AST depth>=2 or a negating connective "
         "(Not, Imply, XNor, AtMost, FORBIDS_ALL); distinct by AST digest and route")
-BUDGET = {"quick": (8, 400, 60), "thorough": (16, 6000, 900)}
+BUDGET = {"quick": (12, 600, 90), "thorough": (16, 5000, 1200)}
 CONNECTIVES = ["All", "Any", "AtLeast", "AtMost", "Xor", "ExactlyOne", "XNor", "Imply", "Not"]
+PYTEST = True     # thorough tier also runs the repository's own tests under these monitors
 MANDATORY = ["judged:truth-table:ctor", "judged:truth-table:json", "judged:truth-table:cicJE", "contract:plog.from_json",
              "contract:Imply.from_cicJE"] + ["count:connective:" + c for c in CONNECTIVES] + \
             ["count:cicJE:" + r for r in ["REQUIRES_ALL", "REQUIRES_ANY", "ONE_OR_NONE", "FORBIDS_ALL", "REQUIRES_EXCLUSIVELY"]] + \
